@@ -2669,6 +2669,7 @@ package goatlang
 //@   nopanic
 //@   assume @def:vm slotsOf(vm.frame.Codes) == 0
 //@   ensures#runs @C19 calls("(*VM).exec") == 1
+//@   assert#ownstack @C19 @def:vm isfresh(arr(vm.stack)) || arr(vm.stack) == arr(params)
 //@ func (*VM).Func handler
 //@   assume vm.globals == v.globals && vm.globals != nil
 //@   assume forall j int :: 0 <= j && j < len(vm.frame.Codes) ==> posOK(vm.globals, vm.frame.Codes[j].Pos)
